@@ -459,7 +459,16 @@ class SymClient(Client):
                 outs.extend(o_.set(key, o_.ret) if o_.ret is not None else o_ for o_ in self._inline(fi, call, s_k))
             return outs or [s]
         if isinstance(r, ClassRef):
-            return [self._alloc(call, self.new_token(r.name, call), s)]
+            tok = self.new_token(r.name, call)
+            s_a = self._alloc(call, tok, s)
+            ci = self.repo.cls(r.module, r.name)
+            init = ci.find_method('__init__')
+            if init is not None and self.repo.is_helper_class(ci) and self.depth < 6 and not _is_generator(init.node):
+                # a class introduced after the rules were confirmed: its constructor is looked into, the new object is
+                # ``self`` inside it
+                outs = self._inline(init, call, s_a, self_term=tok)
+                return [o_.with_ret(None) for o_ in outs] or [s_a]
+            return [s_a]
         if isinstance(r, FuncRef):
             fi = self.repo.func(r.module, r.qualname)
             if self.inline(fi) and self.depth < 6 and not _is_generator(fi.node):
@@ -473,12 +482,15 @@ class SymClient(Client):
                 return [o_.with_ret(None) for o_ in outs]
         return [s]
 
-    def _inline(self, fi: FuncInfo, call: ast.Call, s: SymState) -> List[SymState]:
+    def _inline(self, fi: FuncInfo, call: ast.Call, s: SymState, self_term: Optional[str] = None) -> List[SymState]:
         params = fi.params
         env = {}
         if fi.parent is not None:
             env.update(dict(s.env))     # closure: a nested function sees the enclosing locals
-        if fi.kind in ('method', 'classmethod') and params and isinstance(call.func, ast.Attribute):
+        if self_term is not None and params:
+            env[params[0]] = self_term
+            params = params[1:]
+        elif fi.kind in ('method', 'classmethod') and params and isinstance(call.func, ast.Attribute):
             recv = self.term(call.func.value, s, heap_ext=False)
             if recv.startswith('super('):
                 recv = s.get('self') or 'self'
@@ -615,7 +627,10 @@ class SymClient(Client):
                     s1 = s1.set(st.target.id, new)
                 else:
                     t = self.term(st.target, s1)
-                    new = t if t.startswith('AUG(') else 'AUG(%s, %r, %s)' % (t, op, rhs)
+                    mark = 'AUG'
+                    if isinstance(st.target, ast.Attribute) and is_token(self.term(st.target.value, s1, heap_ext=False)):
+                        mark = 'AUG_%s' % st.target.attr      # a counter kept in an object created on this path: named after the field
+                    new = t if t.startswith(mark + '(') else '%s(%s, %r, %s)' % (mark, t, op, rhs)
                     s1 = self.assign(st.target, None, new, s1)
                 outs.append(s1)
             return outs
@@ -959,10 +974,41 @@ def loop_body_outcomes(client: SymClient, loop: ast.AST):
             states |= set(client.loop_bind(loop, st))
         else:
             states.add(st)
-    if isinstance(loop, ast.While):
-        t, f, exc = flow.cond(loop.test, states)
-        states = t
-    return flow.run(loop.body, states)
+    def run_once(sts):
+        if isinstance(loop, ast.While):
+            t, f, exc = flow.cond(loop.test, sts)
+            sts = t
+        return flow.run(loop.body, sts)
+    o = run_once(states)
+    # fields of objects created before the loop that an iteration updates (counters kept in a helper object) are
+    # loop-carried as well: at the start of an arbitrary iteration their value is PRE_<object>.<field>
+    carried = set()
+    for st in states:
+        before = {(t_, f_): v_ for t_, f_, v_ in st.heap if is_token(t_)}
+        for out_s in list(o.fall) + list(o.cont) + list(o.brk) + [x for x, _r in o.ret]:
+            for t_, f_, v_ in out_s.heap:
+                if is_token(t_) and (t_, f_) in before and before[(t_, f_)] != v_ and v_.startswith('AUG_%s(' % f_):
+                    carried.add((t_, f_))
+    if carried:
+        saved_log = list(client.log)
+        states = {_with_fields(st, {(t_, f_): 'PRE_%s.%s' % (t_, f_) for t_, f_ in carried}) for st in states}
+        o = run_once(states)
+    return o
+
+
+def _with_fields(st: SymState, fields) -> SymState:
+    for (t_, f_), v_ in fields.items():
+        st = st.set_field(t_, f_, v_)
+    return st
+
+
+def cond_eq(conds, a: str, b: str) -> bool:
+    """do the path conditions assert ``a == b`` (written either way round, positively or as a refuted ``!=``)?"""
+    return any(c in conds for c in ('+%s == %s' % (a, b), '+%s == %s' % (b, a), '-%s != %s' % (a, b), '-%s != %s' % (b, a)))
+
+
+def cond_ne(conds, a: str, b: str) -> bool:
+    return any(c in conds for c in ('-%s == %s' % (a, b), '-%s == %s' % (b, a), '+%s != %s' % (a, b), '+%s != %s' % (b, a)))
 
 
 def iteration_paths(client: SymClient, loop: ast.AST):
